@@ -24,6 +24,7 @@ package vm
 // prelude/31_geth_vm.spec, used by x/evm/keeper) to the bank / auth state of layer(ctx) are TRUSTED: that view is not
 // defined in terms of cStateDb's fields, so they cannot be checked against the body.
 //@ func NewStateDB(ctx sdk.Context, coinbase common.Address, ethKeeper EvmKeeper, accountKeeper authkeeper.AccountKeeper, bankKeeper bankkeeper.Keeper) CStateDB
+//@   deterministic[C01.no_node_local_source]
 //@   requires ethKeeper != nil
 //@   modifies nothing
 //@   ensures[C03.new_object] result != nil && typeof(result) == type(*cStateDb) && fresh(payload(result))
@@ -62,28 +63,33 @@ package vm
 // ---------------------------------------------------------------------------------------------
 
 //@ func newAccountTracker() AccountTracker
+//@   deterministic[C01.no_node_local_source]
 //@   modifies nothing
 //@   ensures[C03.tracker_new] result != nil && fresh(result) && (forall a common.Address :: !(a in result))
 //@   panics never
 
 //@ func (t AccountTracker) Add(addr common.Address)
+//@   deterministic[C01.no_node_local_source]
 //@   requires t != nil
 //@   modifies contents(t)
 //@   ensures[C03.tracker_add] keys(t) == old(keys(t))[addr := true]
 //@   panics never
 
 //@ func (t AccountTracker) Has(addr common.Address) bool
+//@   deterministic[C01.no_node_local_source]
 //@   modifies nothing
 //@   ensures[C03.tracker_has] result == (addr in t)
 //@   panics never
 
 //@ func (t AccountTracker) Delete(addr common.Address)
+//@   deterministic[C01.no_node_local_source]
 //@   modifies contents(t)
 //@   ensures[C03.tracker_delete] keys(t) == old(keys(t))[addr := false]
 //@   panics never
 
 // Copy: a NEW map with the same keys and values (deep copy: the result shares nothing with t).
 //@ func (t AccountTracker) Copy() AccountTracker
+//@   deterministic[C01.no_node_local_source]
 //@   modifies nothing
 //@   ensures[C03.tracker_copy_fresh] result != nil && fresh(result)
 //@   ensures[C03.tracker_copy_equal] forall a common.Address :: (a in result) == (a in t) && result[a] == t[a]
@@ -100,6 +106,7 @@ package vm
 
 // Copy: a NEW backing array with the same elements (so appends to either slice never show through the other).
 //@ func (l Logs) Copy() Logs
+//@   deterministic[C01.no_node_local_source]
 //@   modifies nothing
 //@   ensures[C03.logs_copy_nil] (l == nil) == (result == nil)
 //@   ensures[C03.logs_copy_fresh] l != nil ==> fresh(base(result))
@@ -116,23 +123,27 @@ package vm
 //@ ghost macro alOk(al *AccessList2) bool = al != nil && al.elements != nil && (forall a common.Address, b common.Address :: (a != b && al.elements[a] != nil) ==> al.elements[a] != al.elements[b])
 
 //@ func newAccessList2() *AccessList2
+//@   deterministic[C01.no_node_local_source]
 //@   modifies nothing
 //@   ensures[C03.al_new] result != nil && fresh(result) && fresh(result.elements) && (forall a common.Address :: !(a in result.elements)) && alOk(result)
 //@   panics never
 
 //@ func (al *AccessList2) ContainsAddress(address common.Address) bool
+//@   deterministic[C01.no_node_local_source]
 //@   requires al != nil
 //@   modifies nothing
 //@   ensures[C03.al_contains_address] result == (address in al.elements)
 //@   panics never
 
 //@ func (al *AccessList2) Contains(address common.Address, slot common.Hash) (addressPresent bool, slotPresent bool)
+//@   deterministic[C01.no_node_local_source]
 //@   requires al != nil
 //@   modifies nothing
 //@   ensures[C03.al_contains] addressPresent == (address in al.elements) && slotPresent == (slot in al.elements[address])
 //@   panics never
 
 //@ func (al *AccessList2) AddAddress(address common.Address) bool
+//@   deterministic[C01.no_node_local_source]
 //@   requires alOk(al)
 //@   modifies contents(al.elements)
 //@   ensures[C03.al_add_address] result == !old(address in al.elements) && (forall a common.Address :: (a in al.elements) == (a == address || old(a in al.elements)))
@@ -142,6 +153,7 @@ package vm
 
 // AddSlot writes in place only into the non-empty inner map of this very address; otherwise it allocates a new map.
 //@ func (al *AccessList2) AddSlot(address common.Address, slot common.Hash) (addrChange bool, slotChange bool)
+//@   deterministic[C01.no_node_local_source]
 //@   requires alOk(al)
 //@   modifies contents(al.elements), contents(al.elements[address])
 //@   ensures[C03.al_add_slot_flags] addrChange == !old(address in al.elements) && slotChange == !old(slot in al.elements[address])
@@ -151,6 +163,7 @@ package vm
 //@   panics never
 
 //@ func (al *AccessList2) DeleteSlot(address common.Address, slot common.Hash)
+//@   deterministic[C01.no_node_local_source]
 //@   requires alOk(al)
 //@   modifies contents(al.elements), contents(al.elements[address])
 //@   ensures[C03.al_delete_slot] (forall a common.Address :: (a in al.elements) == old(a in al.elements)) && (forall a common.Address, s common.Hash :: (s in al.elements[a]) == (old(s in al.elements[a]) && !(a == address && s == slot)))
@@ -158,6 +171,7 @@ package vm
 //@   panics[C03.al_delete_slot_panics] iff !(address in al.elements)
 
 //@ func (al *AccessList2) DeleteAddress(address common.Address)
+//@   deterministic[C01.no_node_local_source]
 //@   requires alOk(al)
 //@   modifies contents(al.elements)
 //@   ensures[C03.al_delete_address] forall a common.Address :: (a in al.elements) == (a != address && old(a in al.elements)) && (a != address ==> al.elements[a] == old(al.elements[a]))
@@ -167,6 +181,7 @@ package vm
 // Copy: deep copy — a new AccessList2, a new outer map and a new inner map per address that has slots
 // (addresses without slots map to nil). Nothing of the result is shared with al.
 //@ func (al *AccessList2) Copy() *AccessList2
+//@   deterministic[C01.no_node_local_source]
 //@   requires al != nil
 //@   modifies nothing
 //@   ensures[C03.al_copy_fresh] result != nil && fresh(result) && result.elements != nil && fresh(result.elements) && (forall a common.Address :: result.elements[a] == nil || fresh(result.elements[a]))
@@ -195,12 +210,14 @@ package vm
 //@ ghost macro tsOk(t transientStorage) bool = t != nil && (forall a common.Address, b common.Address :: ((a in t) ==> t[a] != nil) && ((a != b && (a in t) && (b in t)) ==> t[a] != t[b]))
 
 //@ func newTransientStorage() transientStorage
+//@   deterministic[C01.no_node_local_source]
 //@   modifies nothing
 //@   ensures[C03.ts_new] result != nil && fresh(result) && (forall a common.Address :: !(a in result)) && tsOk(result)
 //@   panics never
 
 // Set writes into the inner map of this very address (allocating it when missing).
 //@ func (t transientStorage) Set(addr common.Address, key common.Hash, value common.Hash)
+//@   deterministic[C01.no_node_local_source]
 //@   requires tsOk(t)
 //@   modifies contents(t), contents(t[addr])
 //@   ensures[C03.ts_set_view] forall a common.Address, k common.Hash :: t[a][k] == ((a == addr && k == key) ? value : old(t[a][k]))
@@ -209,12 +226,14 @@ package vm
 //@   panics never
 
 //@ func (t transientStorage) Get(addr common.Address, key common.Hash) common.Hash
+//@   deterministic[C01.no_node_local_source]
 //@   modifies nothing
 //@   ensures[C03.ts_get] result == t[addr][key]
 //@   panics never
 
 // Copy: deep copy — a new outer map and a new inner map for every address.
 //@ func (t transientStorage) Copy() transientStorage
+//@   deterministic[C01.no_node_local_source]
 //@   modifies nothing
 //@   ensures[C03.ts_copy_fresh] result != nil && fresh(result) && (forall a common.Address :: (a in result) ==> (result[a] != nil && fresh(result[a])))
 //@   ensures[C03.ts_copy_equal] forall a common.Address, k common.Hash :: (a in result) == (a in t) && (k in result[a]) == (k in t[a]) && result[a][k] == t[a][k]
@@ -230,6 +249,7 @@ package vm
 
 // Clone: Copy behind the TransientStorage interface.
 //@ func (t transientStorage) Clone() TransientStorage
+//@   deterministic[C01.no_node_local_source]
 //@   modifies nothing
 //@   ensures[C03.ts_clone] typeof(result) == type(transientStorage) && payload(result) != nil && fresh(payload(result)) && allocated(payload(result))
 //@   ensures[C03.ts_clone_fresh] forall a common.Address :: (a in unbox(result, type(transientStorage))) ==> (unbox(result, type(transientStorage))[a] != nil && fresh(unbox(result, type(transientStorage))[a]))
@@ -272,6 +292,7 @@ package vm
 
 // a snapshot record is taken: a child layer of workingCtx with the same view, and DEEP copies of every revertible component
 //@ func newStateDbSnapshotFromStateDb(stateDb *cStateDb, workingCtx sdk.Context) RtStateDbSnapshot
+//@   deterministic[C01.no_node_local_source]
 //@   requires stateDb != nil && stateDb.accessList != nil && typeof(stateDb.transientStorage) == type(transientStorage)
 //@   modifies nothing
 //@   ensures[C03.rec_layer] lyrParent(layer(result.snapshotCtx)) == layer(workingCtx) && lyrDepth(layer(result.snapshotCtx)) == lyrDepth(layer(workingCtx)) + 1 && viewEq(layer(result.snapshotCtx), layer(workingCtx)) && hdr(result.snapshotCtx) == hdr(workingCtx)
@@ -308,6 +329,7 @@ package vm
 
 // Snapshot: pushes a record holding deep copies of the live components and continues in a child layer with the same view.
 //@ func (d *cStateDb) Snapshot() int
+//@   deterministic[C01.no_node_local_source]
 //@   requires sdbInv(d)
 //@   modifies d.currentCtx, d.snapshots, contents(d.snapshots)
 //@   ensures[C03.snap_id] result == old(len(d.snapshots)) - 1 && len(d.snapshots) == old(len(d.snapshots)) + 1
@@ -333,6 +355,7 @@ package vm
 // NEW child layer of it), every live component becomes a fresh deep copy of what record id+1 saved (the record itself is
 // kept, untouched, so the same id can be reverted to again), the refund counter is restored.
 //@ func (d *cStateDb) RevertToSnapshot(id int)
+//@   deterministic[C01.no_node_local_source]
 //@   requires sdbInv(d)
 //@   modifies d.currentCtx, d.touched, d.refund, d.selfDestructed, d.accessList, d.logs, d.transientStorage, d.snapshots, contents(d.snapshots)
 //@   ensures[C03.revert_len] len(d.snapshots) == id + 2
@@ -429,6 +452,7 @@ package vm
 // mintCoins: MintCoins(evm module) then SendCoinsFromModuleToAccount: the supply and the account's balance grow by exactly
 // `coins`, the module account ends where it started; any bank error aborts (panic).
 //@ func (d cStateDb) mintCoins(accAddr sdk.AccAddress, coins sdk.Coins)
+//@   deterministic[C01.no_node_local_source]
 //@   requires d.bankKeeper != nil
 //@   modifies bankBal[layer(d.currentCtx)], bankSupply[layer(d.currentCtx)], authVersion[layer(d.currentCtx)], evlog[payload(d.currentCtx.EventManager())]
 //@   ensures[C04.mint_balances] forall a bytes, den string :: bankBal[layer(d.currentCtx)][a][den] == old(bankBal[layer(d.currentCtx)][a][den]) + (a == bytes(accAddr) ? coinsAmt(content(coins), den) : 0)
@@ -438,6 +462,7 @@ package vm
 // burnCoins: SendCoinsFromAccountToModule then BurnCoins: supply and balance shrink by exactly `coins`; a normal return
 // means every (positive) amount was spendable (not vesting-locked at the block time of the context).
 //@ func (d cStateDb) burnCoins(accAddr sdk.AccAddress, coins sdk.Coins)
+//@   deterministic[C01.no_node_local_source]
 //@   requires d.bankKeeper != nil
 //@   modifies bankBal[layer(d.currentCtx)], bankSupply[layer(d.currentCtx)], authVersion[layer(d.currentCtx)], evlog[payload(d.currentCtx.EventManager())]
 //@   ensures[C04.burn_balances] forall a bytes, den string :: bankBal[layer(d.currentCtx)][a][den] == old(bankBal[layer(d.currentCtx)][a][den]) - (a == bytes(accAddr) ? coinsAmt(content(coins), den) : 0)
@@ -446,6 +471,7 @@ package vm
 //@   panics any
 
 //@ func (d *cStateDb) AddBalance(address common.Address, b *big.Int)
+//@   deterministic[C01.no_node_local_source]
 //@   requires d != nil && d.touched != nil && d.bankKeeper != nil && b != nil
 //@   modifies contents(d.touched), bankBal[layer(d.currentCtx)], bankSupply[layer(d.currentCtx)], authVersion[layer(d.currentCtx)], evlog[payload(d.currentCtx.EventManager())]
 //@   ensures[C03.mut_touched] forall a common.Address :: (a in d.touched) == (a == address || old(a in d.touched))
@@ -454,6 +480,7 @@ package vm
 //@   panics any
 
 //@ func (d *cStateDb) SubBalance(address common.Address, b *big.Int)
+//@   deterministic[C01.no_node_local_source]
 //@   requires d != nil && d.touched != nil && d.bankKeeper != nil && b != nil
 //@   modifies contents(d.touched), bankBal[layer(d.currentCtx)], bankSupply[layer(d.currentCtx)], authVersion[layer(d.currentCtx)], evlog[payload(d.currentCtx.EventManager())]
 //@   ensures[C03.mut_touched] forall a common.Address :: (a in d.touched) == (a == address || old(a in d.touched))
@@ -468,12 +495,14 @@ package vm
 // ---------------------------------------------------------------------------------------------
 
 //@ func (d *cStateDb) createAccountIfNotExists(address common.Address)
+//@   deterministic[C01.no_node_local_source]
 //@   requires d != nil
 //@   modifies acctExists[layer(d.currentCtx)], acctSeq[layer(d.currentCtx)], authVersion[layer(d.currentCtx)]
 //@   ensures[C03.mut_create_if_missing] acctExists[layer(d.currentCtx)] == old(acctExists[layer(d.currentCtx)])[addrBytes(address) := true] && acctSeq[layer(d.currentCtx)] == old(acctSeq[layer(d.currentCtx)])
 //@   panics never
 
 //@ func (d *cStateDb) SetNonce(address common.Address, n uint64)
+//@   deterministic[C01.no_node_local_source]
 //@   requires d != nil && d.touched != nil
 //@   modifies contents(d.touched), acctExists[layer(d.currentCtx)], acctSeq[layer(d.currentCtx)], authVersion[layer(d.currentCtx)], accObjSeq
 //@   ensures[C03.mut_touched] forall a common.Address :: (a in d.touched) == (a == address || old(a in d.touched))
@@ -481,12 +510,14 @@ package vm
 //@   panics never
 
 //@ func (d *cStateDb) SetCode(address common.Address, code []byte)
+//@   deterministic[C01.no_node_local_source]
 //@   requires d != nil && d.touched != nil && d.evmKeeper != nil
 //@   modifies contents(d.touched), acctExists[layer(d.currentCtx)], acctSeq[layer(d.currentCtx)], authVersion[layer(d.currentCtx)], evmCodeHash[layer(d.currentCtx)], evmCodeVer[layer(d.currentCtx)]
 //@   ensures[C03.mut_touched] forall a common.Address :: (a in d.touched) == (a == address || old(a in d.touched))
 //@   panics any
 
 //@ func (d *cStateDb) SetState(address common.Address, key common.Hash, value common.Hash)
+//@   deterministic[C01.no_node_local_source]
 //@   requires d != nil && d.touched != nil && d.evmKeeper != nil
 //@   modifies contents(d.touched), acctExists[layer(d.currentCtx)], acctSeq[layer(d.currentCtx)], authVersion[layer(d.currentCtx)], evmStorage[layer(d.currentCtx)]
 //@   ensures[C03.mut_touched] forall a common.Address :: (a in d.touched) == (a == address || old(a in d.touched))
@@ -494,36 +525,42 @@ package vm
 //@   panics any
 
 //@ func (d *cStateDb) GetState(address common.Address, hash common.Hash) common.Hash
+//@   deterministic[C01.no_node_local_source]
 //@   requires d != nil && d.evmKeeper != nil
 //@   modifies nothing
 //@   ensures[C03.get_state] result == evmStorage[layer(d.currentCtx)][address][hash]
 //@   panics never
 
 //@ func (d *cStateDb) AddRefund(gas uint64)
+//@   deterministic[C01.no_node_local_source]
 //@   requires d != nil
 //@   modifies d.refund
 //@   ensures[C03.mut_add_refund] d.refund == old(d.refund) + gas
 //@   panics[C03.add_refund_overflow] iff d.refund + gas >= pow2(64)
 
 //@ func (d *cStateDb) SubRefund(gas uint64)
+//@   deterministic[C01.no_node_local_source]
 //@   requires d != nil
 //@   modifies d.refund
 //@   ensures[C03.mut_sub_refund] d.refund == old(d.refund) - gas
 //@   panics[C03.sub_refund_underflow] iff gas > d.refund
 
 //@ func (d *cStateDb) GetRefund() uint64
+//@   deterministic[C01.no_node_local_source]
 //@   requires d != nil
 //@   modifies nothing
 //@   ensures[C03.get_refund] result == d.refund
 //@   panics never
 
 //@ func (d *cStateDb) GetTransientState(addr common.Address, key common.Hash) common.Hash
+//@   deterministic[C01.no_node_local_source]
 //@   requires d != nil && typeof(d.transientStorage) == type(transientStorage)
 //@   modifies nothing
 //@   ensures[C03.get_transient] result == unbox(d.transientStorage, type(transientStorage))[addr][key]
 //@   panics never
 
 //@ func (d *cStateDb) SetTransientState(addr common.Address, key common.Hash, value common.Hash)
+//@   deterministic[C01.no_node_local_source]
 //@   requires sdbInv(d)
 //@   modifies contents(unbox(d.transientStorage, type(transientStorage))), contents(unbox(d.transientStorage, type(transientStorage))[addr])
 //@   ensures[C03.mut_set_transient] forall a common.Address, k common.Hash :: unbox(d.transientStorage, type(transientStorage))[a][k] == ((a == addr && k == key) ? value : old(unbox(d.transientStorage, type(transientStorage))[a][k]))
@@ -532,6 +569,7 @@ package vm
 //@   panics never
 
 //@ func (d *cStateDb) AddLog(log *ethtypes.Log)
+//@   deterministic[C01.no_node_local_source]
 //@   requires sdbInv(d)
 //@   modifies d.logs, contents(d.logs)
 //@   ensures[C03.mut_add_log] len(d.logs) == old(len(d.logs)) + 1 && d.logs[old(len(d.logs))] == log && (forall i int :: (0 <= i && i < old(len(d.logs))) ==> d.logs[i] == old(d.logs[i]))
@@ -539,18 +577,21 @@ package vm
 //@   panics never
 
 //@ func (d *cStateDb) AddressInAccessList(addr common.Address) bool
+//@   deterministic[C01.no_node_local_source]
 //@   requires d != nil && d.accessList != nil
 //@   modifies nothing
 //@   ensures[C03.al_address_in] result == (addr in d.accessList.elements)
 //@   panics never
 
 //@ func (d *cStateDb) SlotInAccessList(addr common.Address, slot common.Hash) (addressOk bool, slotOk bool)
+//@   deterministic[C01.no_node_local_source]
 //@   requires d != nil && d.accessList != nil
 //@   modifies nothing
 //@   ensures[C03.al_slot_in] addressOk == (addr in d.accessList.elements) && slotOk == (slot in d.accessList.elements[addr])
 //@   panics never
 
 //@ func (d *cStateDb) AddAddressToAccessList(addr common.Address)
+//@   deterministic[C01.no_node_local_source]
 //@   requires sdbInv(d)
 //@   modifies contents(d.accessList.elements)
 //@   ensures[C03.mut_al_add_address] (forall a common.Address :: (a in d.accessList.elements) == (a == addr || old(a in d.accessList.elements))) && (forall a common.Address :: d.accessList.elements[a] == old(d.accessList.elements[a]))
@@ -559,6 +600,7 @@ package vm
 //@   panics never
 
 //@ func (d *cStateDb) AddSlotToAccessList(addr common.Address, slot common.Hash)
+//@   deterministic[C01.no_node_local_source]
 //@   requires sdbInv(d)
 //@   modifies contents(d.accessList.elements), contents(d.accessList.elements[addr])
 //@   ensures[C03.mut_al_add_slot] (forall a common.Address :: (a in d.accessList.elements) == (a == addr || old(a in d.accessList.elements))) && (forall a common.Address, s common.Hash :: (s in d.accessList.elements[a]) == ((a == addr && s == slot) || old(s in d.accessList.elements[a])))
@@ -567,12 +609,14 @@ package vm
 //@   panics never
 
 //@ func (d *cStateDb) HasSuicided(address common.Address) bool
+//@   deterministic[C01.no_node_local_source]
 //@   requires d != nil
 //@   modifies nothing
 //@   ensures[C03.has_suicided] result == (address in d.selfDestructed)
 //@   panics never
 
 //@ func (d *cStateDb) GetCurrentContext() sdk.Context
+//@   deterministic[C01.no_node_local_source]
 //@   requires d != nil
 //@   modifies nothing
 //@   ensures[C03.current_ctx] result == d.currentCtx
@@ -592,6 +636,7 @@ package vm
 // (panic, which fails the transaction) protected accounts, judged at the BLOCK TIME of the current context (property C15).
 // The storage clause is TRUSTED: it is what the ForEachStorage callback achieves (higher-order, not expanded by the engine).
 //@ func (d *cStateDb) DestroyAccount(addr common.Address)
+//@   deterministic[C01.no_node_local_source]
 //@   requires d != nil && d.bankKeeper != nil && d.evmKeeper != nil
 //@   modifies acctExists[layer(d.currentCtx)], acctSeq[layer(d.currentCtx)], authVersion[layer(d.currentCtx)], acctTag[layer(d.currentCtx)], acctVestEnd[layer(d.currentCtx)], bankBal[layer(d.currentCtx)], bankSupply[layer(d.currentCtx)], evlog[payload(d.currentCtx.EventManager())], evmCodeHash[layer(d.currentCtx)], evmStorage[layer(d.currentCtx)]
 //@   ensures[C15.destroy_module_refused] !old(acctExists[layer(d.currentCtx)][addrBytes(addr)] && implements(acctTag[layer(d.currentCtx)][addrBytes(addr)], type(sdk.ModuleAccountI)))
@@ -608,6 +653,7 @@ package vm
 // CreateAccount (EVM CREATE at an address): whatever was at the address is destroyed (same guard), a fresh base account
 // is stored and the balances are carried over: no coin is created or lost.
 //@ func (d *cStateDb) CreateAccount(address common.Address)
+//@   deterministic[C01.no_node_local_source]
 //@   requires d != nil && d.touched != nil && d.bankKeeper != nil && d.evmKeeper != nil
 //@   modifies contents(d.touched), acctExists[layer(d.currentCtx)], acctSeq[layer(d.currentCtx)], authVersion[layer(d.currentCtx)], acctTag[layer(d.currentCtx)], acctVestEnd[layer(d.currentCtx)], bankBal[layer(d.currentCtx)], bankSupply[layer(d.currentCtx)], evlog[payload(d.currentCtx.EventManager())], evmCodeHash[layer(d.currentCtx)], evmStorage[layer(d.currentCtx)]
 //@   ensures[C03.mut_touched] forall a common.Address :: (a in d.touched) == (a == address || old(a in d.touched))
@@ -621,6 +667,7 @@ package vm
 // Suicide marks an EXISTING account as self-destructed and burns its EVM-denomination balance (through SubBalance, so
 // locked coins cannot be burnt); for a missing account nothing but the touched set changes.
 //@ func (d *cStateDb) Suicide(address common.Address) bool
+//@   deterministic[C01.no_node_local_source]
 //@   requires d != nil && d.touched != nil && d.selfDestructed != nil && d.touched != d.selfDestructed && d.bankKeeper != nil
 //@   modifies contents(d.touched), contents(d.selfDestructed), bankBal[layer(d.currentCtx)], bankSupply[layer(d.currentCtx)], authVersion[layer(d.currentCtx)], evlog[payload(d.currentCtx.EventManager())]
 //@   ensures[C03.mut_touched] forall a common.Address :: (a in d.touched) == (a == address || old(a in d.touched))
@@ -631,6 +678,7 @@ package vm
 
 // Selfdestruct6780: Suicide only for an account created within the transaction; never marks a missing account.
 //@ func (d *cStateDb) Selfdestruct6780(address common.Address)
+//@   deterministic[C01.no_node_local_source]
 //@   requires d != nil && d.touched != nil && d.selfDestructed != nil && d.touched != d.selfDestructed && d.bankKeeper != nil
 //@   modifies contents(d.touched), contents(d.selfDestructed), bankBal[layer(d.currentCtx)], bankSupply[layer(d.currentCtx)], authVersion[layer(d.currentCtx)], evlog[payload(d.currentCtx.EventManager())]
 //@   ensures[C15.sd6780_marks_existing_only] forall a common.Address :: (a in d.selfDestructed) ==> (old(a in d.selfDestructed) || (a == address && old(acctExists[layer(d.currentCtx)][addrBytes(address)])))
@@ -639,12 +687,14 @@ package vm
 //@   panics any
 
 //@ func (d *cStateDb) Exist(address common.Address) bool
+//@   deterministic[C01.no_node_local_source]
 //@   requires d != nil
 //@   modifies nothing
 //@   ensures[C15.exist] result == ((address in d.selfDestructed) || acctExists[layer(d.currentCtx)][addrBytes(address)])
 //@   panics never
 
 //@ func (d *cStateDb) Empty(address common.Address) bool
+//@   deterministic[C01.no_node_local_source]
 //@   requires d != nil && d.evmKeeper != nil
 //@   modifies nothing
 //@   ensures[C15.empty] result == (evmCodeHash[layer(d.currentCtx)][addrBytes(address)] == zero(type(common.Hash)) && (forall den string :: bankBal[layer(d.currentCtx)][addrBytes(address)][den] == 0) && acctSeq[layer(d.currentCtx)][addrBytes(address)] == 0 && (forall k common.Hash :: evmStorage[layer(d.currentCtx)][address][k] == zero(type(common.Hash))))
@@ -665,6 +715,7 @@ package vm
 //@ ghost macro destroyJustified(d *cStateDb, a common.Address, deleteEmptyObjects bool) bool = (a in d.touched) && ((a in d.selfDestructed) || (deleteEmptyObjects && old(emptyAt(layer(d.currentCtx), a)))) && !old(acctProtectedAt(layer(d.currentCtx), addrBytes(a), hdrTimeUnix(hdr(d.currentCtx))))
 
 //@ func (d *cStateDb) CommitMultiStore(deleteEmptyObjects bool) (err error)
+//@   deterministic[C01.no_node_local_source]
 //@   requires sdbInv(d) && !preventCommit && d.bankKeeper != nil && d.evmKeeper != nil
 //@   modifies d.committed, views, evlog
 //@   ensures[C03.commit_flushes_innermost_to_original] err == nil && d.committed && viewEq(layer(d.originalCtx), layer(d.currentCtx))
